@@ -65,7 +65,7 @@ theorem c02_pc_tuples (fa : List String) (hnd : fa.Nodup) (ls : List (List V)) :
   | nil => rfl
   | cons l ls =>
     have hw : Gen.casesWrapBare (rowIsStr (Row.tuple l)) (rowIsIterable (Row.tuple l)) = false := by
-      simp [Gen.casesWrapBare, rowIsStr, rowIsIterable]
+      simp [Gen.casesWrapBare, Gen.Default.casesWrapBare, rowIsStr, rowIsIterable]
     have hm := mapM'_tuples (l :: ls)
     simp only [List.map_cons] at hm
     simp only [parse, List.map_cons, hw, Bool.false_eq_true, if_false, hm]
@@ -85,8 +85,8 @@ theorem c02_pc_bare (a : String) (v : V) (vs : List V) (hv : isScalar v = true) 
     parse (some [a]) (.rows ((v :: vs).map .bare)) = parse (some [a]) (.rows ((v :: vs).map fun x => .tuple [x])) := by
   have hw : Gen.casesWrapBare (rowIsStr (Row.bare v)) (rowIsIterable (Row.bare v)) = true := by
     cases v with
-    | num n => simp [Gen.casesWrapBare, rowIsStr, rowIsIterable]
-    | str s => simp [Gen.casesWrapBare, rowIsStr, rowIsIterable]
+    | num n => simp [Gen.casesWrapBare, Gen.Default.casesWrapBare, rowIsStr, rowIsIterable]
+    | str s => simp [Gen.casesWrapBare, Gen.Default.casesWrapBare, rowIsStr, rowIsIterable]
     | tup l => simp [isScalar] at hv
   have h1 : parse (some [a]) (.rows ((v :: vs).map .bare)) = .ok ((v :: vs).map fun x => [(a, x)]) := by
     simp only [parse, List.map_cons, hw, if_true, List.map_map]
